@@ -13,6 +13,7 @@ import (
 	"os/exec"
 	"path/filepath"
 	"strings"
+	"sync"
 	"time"
 )
 
@@ -379,4 +380,27 @@ func solve1c(query string, timeoutMs int, wantModel, useCache bool) Answer {
 		os.WriteFile(key, []byte(fmt.Sprintf("%s\n%s\n%d\n%s", last.Result, last.Solver, last.Ms, last.Model)), 0o644)
 	}
 	return last
+}
+
+
+var fastCache = map[string]string{}
+var fastMu sync.Mutex
+
+// solveFast: one z3 run with a short limit (branch pruning only).
+func solveFast(query string, ms int) string {
+	h := sha256.Sum256([]byte(query))
+	k := hex.EncodeToString(h[:12])
+	fastMu.Lock()
+	if r, ok := fastCache[k]; ok {
+		fastMu.Unlock()
+		return r
+	}
+	fastMu.Unlock()
+	a := runSolver(solverSpec{"z3-new", func(t int) []string {
+		return []string{"z3-new", fmt.Sprintf("-t:%d", t), "smt.mbqi=false", "smt.auto_config=false", "-in"}
+	}}, query+"\n(check-sat)\n", ms)
+	fastMu.Lock()
+	fastCache[k] = a.Result
+	fastMu.Unlock()
+	return a.Result
 }
